@@ -59,6 +59,11 @@ pub fn check_mode(
         ..wal::Cfg::plain()
     }
     .to_config();
+    if mode.ends_with("+on_instr_loc") {
+        // a user callback that assigns what the default assigns: the input
+        // offset of the instruction
+        cfg.on_instr_loc(|pos| walrus::InstrLocId::new(*pos as u32));
+    }
     let shared = spy::install(&mut cfg, hint);
     let mut m = match wal::parse(bytes, &cfg) {
         Ok(Ok(m)) => m,
@@ -359,7 +364,7 @@ pub fn check(ctx: &Ctx, input: &Input) -> CaseResult {
     let mut total_pairs = 0;
     let mut interesting = false;
     let mut cov = (0usize, 0usize);
-    for mode in ["plain", "insert", "gc", "plain+dwarf", "reemit-insert"] {
+    for mode in ["plain", "insert", "gc", "plain+dwarf", "reemit-insert", "plain+on_instr_loc"] {
         if let Some(r) = check_mode(ctx, &bytes, mode, &edit_bytes, &origin, &mut out)? {
             total_pairs += r.pairs_checked;
             if r.reordered || r.insertions > 0 {
